@@ -172,9 +172,43 @@ pub fn limit_probe(port: u16, item_limit: u32, out: &mut dyn Write, id: usize) {
     }
 }
 
+/// A fixed walk through every way a record changes its size and then goes away (plain / CAS-guarded overwrite, append,
+/// prepend, counter growth, replace; then delete or flush), with stores and reads of long-lived keys in between: under
+/// "eviction random with a limit that is not reached" every answer is what it is without eviction (C20).
+fn size_walk() -> History {
+    let c = |op: &str, key: &str, val: &[u8], cas: CasSpec| Step::Cmd(Cmd { op: op.into(), q: false, gk: false, key: key.as_bytes().to_vec(), val: val.to_vec(),
+        flags: 3, ttl: 0, cas, opaque: 0, delta: 5, initial: 90 });
+    let mut steps = Vec::new();
+    let keep: Vec<String> = (0..6).map(|i| format!("keep{}", i)).collect();
+    for (r, grow) in ["set", "set", "append", "prepend", "replace", "incr"].iter().enumerate() {
+        let k = format!("walk{}", r);
+        steps.push(c("set", &k, if *grow == "incr" { b"99999" } else { b"x" }, CasSpec::Lit(0)));
+        // grows (by a CAS-guarded command in every other round), then goes away
+        let cas = if r % 2 == 1 { CasSpec::Cur } else { CasSpec::Lit(0) };
+        steps.push(c(grow, &k, &vec![b'g'; 200], cas));
+        steps.push(c("get", &k, b"", CasSpec::Lit(0)));
+        if r == 3 {
+            steps.push(Step::Cmd(Cmd { op: "flush".into(), q: false, gk: false, key: vec![], val: vec![], flags: 0, ttl: 0, cas: CasSpec::Lit(0), opaque: 0, delta: 0, initial: 0 }));
+        } else {
+            steps.push(c("delete", &k, b"", CasSpec::Lit(0)));
+        }
+        steps.push(c("set", &keep[r], format!("kept{}", r).as_bytes(), CasSpec::Lit(0)));
+        steps.push(c("set", &format!("other{}", r), b"o", CasSpec::Lit(0)));
+        for kk in keep.iter().take(r + 1).skip(if r > 3 { 4 } else { 0 }) {
+            steps.push(c("get", kk, b"", CasSpec::Lit(0)));
+        }
+    }
+    let mut keys: Vec<Vec<u8>> = keep.iter().map(|k| k.as_bytes().to_vec()).collect();
+    for r in 0..6 {
+        keys.push(format!("walk{}", r).into_bytes());
+        keys.push(format!("other{}", r).into_bytes());
+    }
+    History { name: "size-walk".into(), cfg: prog::Cfg { policy: "none".into(), mem_limit: 0, item_limit: 1 << 20 }, keys, steps }
+}
+
 pub fn programs(seed: u64, count: usize) -> Vec<History> {
     let mut rng = SmallRng::seed_from_u64(seed);
-    let mut out = Vec::new();
+    let mut out = vec![size_walk()];
     for i in 0..count {
         let mut h = prog::generate(&format!("cfg-{}-{}", seed, i), if i % 2 == 0 { "general" } else { "cas" }, &mut rng);
         // no clock control over a real server: drop ticks, neutralise TTLs and delayed flushes
